@@ -82,6 +82,10 @@ def describe(sess, evs, idx):
     elif e in ("pop", "push"):
         det = ""
     key = "pool:%s:%s%s" % (kind, e, det)
+    if e in ("clear", "put"):
+        return key, ("pool session (%s): event #%s %s: the request touches instance %s although it does not hold it (any more) - "
+                     "an instance is handed back only after the request has dropped its data from it (session %s)" % (
+                         kind, idx, json.dumps(ev)[:120], ev.get("i"), evs[0].get("id")))
     return key, "pool session (%s): event #%s %s is not a step of Pool (session %s)" % (kind, idx, json.dumps(ev)[:240], evs[0].get("id"))
 
 
@@ -399,6 +403,8 @@ def check_c06(run):
     invs = ["Conservation", "OneHolder", "OwnKeysOnly"]
     mc(run, "iso1.cfg", pool_cfg(3, 1, 2, True, 0, 1, invs))
     mc(run, "iso2.cfg", pool_cfg(4, 2, 3, True, 1, 1, invs))
+    # the release in the implementation's own steps: data dropped (clear), instance handed back (put), call returned
+    mc(run, "iso3.cfg", pool_cfg(3, 1, 2, True, 0, 1, invs, spec="MCSpecR"))
     g = gen(run, "SPECIFICATION GSpec\nCONSTANTS\n  GOps = 1\n  GBurst = 1\n  GIso = %d\n" % (4 if quick else 5))
     sessions = []
     for i, rec in enumerate(g["isolation"]):
@@ -430,6 +436,9 @@ def check_c06(run):
             for k in range(rng.randint(1, 8 if quick else 14)):
                 q += 1
                 reqs.append(iso_req(q, rng, sorted(set(rng.sample(ISO_KEYS + ["kd"], rng.randint(0, 3)))), rng.choice(["", "", "", "boom", "concboom", "leak", "see", "see"])))
+                if rng.random() < 0.12:
+                    # a big request: thousands of further entries that no rule looks at (handing its instance back takes long)
+                    reqs[-1]["bulk"] = rng.choice([500, 3000, 8000])
             script.append({"op": "burst", "reqs": reqs})
         script.append({"op": "quiesce"})
         if rng.random() < 0.3:
